@@ -4,12 +4,25 @@ Model: lean/Ladybug/Model/DesignDay.lean (+ Model/Psychro.lean for the humidity 
 dates); theorems: lean/Ladybug/Props/C16.lean; driver: drv_c16.
 Tie: translator (Gen/DesignDayTables from designday.py: multipliers, key lists, IDF layout of to_idf and
 from_idf, the day offset of start_moy) + correspondence on the ops below.
+
+Round 3 (histories, failure paths, process order): Model/DesignDayObj.lean is the object state machine (state =
+public state, no hidden slot; `step`, `runOps`, `construct`), driver op `hist`; `_history_correspondence` drives
+the real object and the model through the same generated histories step by step (status, public state, then
+to_idf / dry bulb / humidity profile / date-times of the model on the model's own state against the object);
+oracle ops `history`, `ddy_history`, `epw_history` compare every observable of ONE object after every step with
+a design day built from scratch from the established state and with the statement itself; `order` runs a slice
+of the stream in fresh interpreters in different orders (rare classes / refused calls first) and compares
+verdicts and digests of all observables; a stream case that fails only because of what ran before it is
+reported as a replayable `order` / `epw_history` input.  Producers and consumers: see the table above
+`ALL_READS`.
 """
+import json
 import math
 import os
 import re
 import shutil
 import struct
+import sys
 import tempfile
 from datetime import datetime, timedelta
 
@@ -18,7 +31,7 @@ from harness.core import compare_batch, err_name, run_oracle_cases
 
 PROP = 'C16'
 PROOF_MODULES = ['Ladybug.Props.C16']
-GREP_MODULES = ['Ladybug.Model.DesignDay', 'Ladybug.Gen.DesignDayTables', 'Ladybug.Proofs.C16Lemmas', 'Ladybug.Proofs.C16Idf',
+GREP_MODULES = ['Ladybug.Model.DesignDay', 'Ladybug.Model.DesignDayObj', 'Ladybug.Proofs.C16Hist', 'Ladybug.Gen.DesignDayTables', 'Ladybug.Proofs.C16Lemmas', 'Ladybug.Proofs.C16Idf',
                 'Ladybug.Drv.C16', 'Ladybug.Model.Psychro', 'Ladybug.Model.Cal', 'Ladybug.Py',
                 'Ladybug.DrvCore', 'Ladybug.Transc', 'Ladybug.RealInst']
 RULE = ('correspondence: design days built from plain numbers (every date of the year for the date ops, '
@@ -29,7 +42,16 @@ RULE = ('correspondence: design days built from plain numbers (every date of the
         '(profile extremes, dew<=db, rh range, dates of every hourly series, radiation recomputed through '
         'Sunpath for the stated date, IDF and DDY round trips, header/EPW-derived days against the header '
         'dictionary and an independent percentile of the raw EPW rows); a case is non-trivial when the '
-        'implementation returns a value; distinct = distinct (op, input)')
+        'implementation returns a value; distinct = distinct (op, input). Round 3: generated operation histories on '
+        'one DesignDay (30 setter / replaced-condition operations with valid and refused arguments - wrong type, '
+        'out of range, impossible date, attribute of the other sky class -, reads of 15 observables + sub-hourly '
+        'sun date-times / radiation at other locations / dew point for other dry-bulb conditions in random order '
+        'and repeated), on one DDY (location / list / item setters, edits of contained days, refused variants) '
+        'and on one EPW (header days, approximate days of several percentiles, monthly days, refused day type, '
+        'to_ddy, IP/SI conversion); strata: saturating days x 4 humidity types, first and last day of every '
+        'month x daylight saving x sky model x 4 locations (both hemispheres), exact zeros and bounds (range 0, '
+        'wind 0/360, clearness 0/1.2, tau 0), the same day with one input changed, all 12 timesteps; 3-4 fresh '
+        'interpreters with different case orders')
 TRUSTED_BASE = [
     'translator tools/extract/designday_tables.py: copies HOURLY_MULTIPLIERS, the key lists, the ep_vals '
     'layout of to_idf, the ep_fields indices/guards of from_idf and the day offset of start_moy',
@@ -45,6 +67,12 @@ TRUSTED_BASE = [
     '(driver op sky_float_in_day checks the IEEE offsets stay inside the day for every day of the year)',
     'EPW/STAT-derived days: from_ashrae_dict_* modelled; approximate_design_day / monthly_cooling_design_days '
     'are checked by the oracle only (independent percentile / means of the raw EPW rows)',
+    'object state machine (Model/DesignDayObj.lean): the state is the public state; validation of setters and '
+    'constructors is hand-written from designday.py / location.py and tied by the step-by-step `hist` '
+    'correspondence; beam / diffuse schedule names of ASHRAEClearSky / ASHRAETau objects are outside the model; '
+    'in-place edits of a Location object (assign-then-assert setters of location.py) are not exercised',
+    'dew-point value clause of the oracle calls ladybug.psychrometrics directly (C09 owns those functions); '
+    'DDY and EPW histories are oracle-only (no Lean state machine)',
 ]
 ASSUMPTIONS = [
     'design-day dates are dates of the non-leap year (the IDF form carries month and day only)',
@@ -667,6 +695,9 @@ def _correspondence(ctx, rng, tmp):
                       ('- -' if c[3] is None else '%s %s' % (_x(str(c[3][0])), _x(str(c[3][1])))), kvs(c[4])),
                   impl_c, canon=_canon, key=lambda c: repr(c))
 
+    # --- round 3: histories on one object, step by step against the Lean object state machine
+    _history_correspondence(ctx, rng)
+
 
 # ---------------------------------------------------------------------------------------------
 # property oracle: the statement of C16 evaluated on the real classes, independent of the model
@@ -688,6 +719,162 @@ def _on_day(dts, month, day, minutes=(0,)):
     return got == exp, got[:2] + got[-1:]
 
 
+def _stated_dew_point(desc):
+    from ladybug import psychrometrics as ps
+    t, v, p, mx = desc['h_type'], desc['h_value'], desc['pressure'], desc['db_max']
+    try:
+        if t == 'Dewpoint':
+            return v
+        if t == 'Wetbulb':
+            return ps.dew_point_from_db_wb(mx, v, p)
+        if t == 'HumidityRatio':
+            return ps.dew_point_from_db_hr(mx, v, p)
+        return ps.dew_point_from_db_enth(mx, v / 1000, p)
+    except (ValueError, ZeroDivisionError, OverflowError):
+        return None
+
+
+def _profile_clauses(dd, desc):
+    """The self-consistency clauses of the statement on an existing design-day object whose stated
+    (user-established) values are `desc`."""
+    sig = {'h_type': desc['h_type']}
+    db = list(dd.hourly_dry_bulb.values)
+    mx, rg = desc['db_max'], desc['db_range']
+    if len(db) != 24 or max(db) != mx:
+        return {'required': 'max of 24 hourly dry bulbs == %r' % mx, 'observed': (len(db), max(db)),
+                'sig': dict(sig, clause='db_max')}
+    if min(db) != mx - rg or abs((max(db) - min(db)) - rg) > 1e-9 * max(1.0, abs(mx)):
+        return {'required': 'min == max - range = %r' % (mx - rg), 'observed': min(db),
+                'sig': dict(sig, clause='db_range')}
+    dp = list(dd.hourly_dew_point.values)
+    for h, (a, b) in enumerate(zip(db, dp)):
+        if b > a:
+            return {'required': 'dew point <= dry bulb at hour %d' % h, 'observed': (a, b),
+                    'sig': dict(sig, clause='dew_le_db')}
+    # the moisture of the day is that of the stated humidity condition at the maximum dry bulb (evaluated
+    # here directly through ladybug.psychrometrics, which C09 owns), capped at saturation hour by hour
+    want_d = _stated_dew_point(desc)
+    if want_d is not None:
+        for h, (a, b) in enumerate(zip(db, dp)):
+            w = want_d if a >= want_d else a
+            if abs(b - w) > 1e-9 * max(1.0, abs(w)):
+                return {'required': 'dew point at hour %d = min(dry bulb %r, dew point %r of the stated %s %r at '
+                                    '%r Pa)' % (h, a, want_d, desc['h_type'], desc['h_value'], desc['pressure']),
+                        'observed': b, 'sig': dict(sig, clause='dew_value')}
+    rh = list(dd.hourly_relative_humidity.values)
+    for h, v in enumerate(rh):
+        if not (0 <= v <= 100 + 1e-9):
+            return {'required': '0 <= rh <= 100 at hour %d' % h, 'observed': v,
+                    'sig': dict(sig, clause='rh_range')}
+    # every consumer of the hourly dew point sees the same (capped) dew point: the condition object itself,
+    # the relative humidity (that of the hourly dry bulb / dew point pair) and the horizontal infrared
+    from ladybug.psychrometrics import rel_humid_from_db_dpt
+    from ladybug.skymodel import calc_horizontal_infrared
+    raw = list(dd.humidity_condition.hourly_dew_point_values(dd.dry_bulb_condition))
+    if raw != dp:
+        h = [i for i in range(min(len(raw), len(dp))) if raw[i] != dp[i]][:1]
+        return {'required': 'HumidityCondition.hourly_dew_point_values == hourly_dew_point values',
+                'observed': (h, raw[:3], dp[:3]), 'sig': dict(sig, clause='consumer:dew_values')}
+    for h, (a, b, r) in enumerate(zip(db, dp, rh)):
+        want = rel_humid_from_db_dpt(a, b)
+        if abs(want - r) > 1e-9 * max(1.0, abs(want)):
+            return {'required': 'rh at hour %d = rh(dry bulb %r, dew point %r) = %r' % (h, a, b, want),
+                    'observed': r, 'sig': dict(sig, clause='consumer:rh')}
+    cover = list(dd.hourly_sky_cover.values)
+    ir = list(dd.hourly_horizontal_infrared.values)
+    for h, (c, a, b, r) in enumerate(zip(cover, db, dp, ir)):
+        want = calc_horizontal_infrared(c, a, b)
+        if abs(want - r) > 1e-9 * max(1.0, abs(want)):
+            return {'required': 'horizontal infrared at hour %d = that of sky cover %r, dry bulb %r, dew point %r '
+                                '= %r' % (h, c, a, b, want), 'observed': r, 'sig': dict(sig, clause='consumer:infrared')}
+    for nm, coll, want in (('pressure', dd.hourly_barometric_pressure, desc['pressure']),
+                           ('wind_speed', dd.hourly_wind_speed, desc['ws']),
+                           ('wind_direction', dd.hourly_wind_direction, desc['wd'])):
+        if list(coll.values) != [want] * 24:
+            return {'required': '24 x %r' % want, 'observed': list(coll.values)[:3],
+                    'sig': dict(sig, clause=nm)}
+    return None
+
+
+def _dates_clauses(dd, desc, loc, timesteps=(1,)):
+    """The date / radiation clauses of the statement on an existing design-day object."""
+    m, d = desc['month'], desc['day']
+    sig = {'sky': _sky_sig(desc), 'dst': bool(desc['dst'])}
+    try:
+        ok, obs = _on_day(dd.hourly_datetimes, m, d)
+    except Exception as e:
+        return {'required': '24 date-times on %d/%d' % (m, d), 'observed': 'raises %s: %s' % (type(e).__name__, e),
+                'sig': dict(sig, clause='hourly_datetimes', raises=type(e).__name__)}
+    if not ok:
+        return {'required': 'hourly_datetimes on %d/%d' % (m, d), 'observed': obs,
+                'sig': dict(sig, clause='hourly_datetimes')}
+    colls = [('dry_bulb', dd.hourly_dry_bulb), ('dew_point', dd.hourly_dew_point),
+             ('relative_humidity', dd.hourly_relative_humidity), ('pressure', dd.hourly_barometric_pressure),
+             ('wind_speed', dd.hourly_wind_speed), ('wind_direction', dd.hourly_wind_direction),
+             ('sky_cover', dd.hourly_sky_cover), ('infrared', dd.hourly_horizontal_infrared)]
+    rad = None
+    if desc['sky'][0] != 'base':
+        try:
+            rad = dd.hourly_solar_radiation
+        except Exception as e:
+            return {'required': 'radiation of %d/%d' % (m, d), 'observed': 'raises %s: %s' % (type(e).__name__, e),
+                    'sig': dict(sig, clause='radiation', raises=type(e).__name__)}
+        colls += [('direct', rad[0]), ('diffuse', rad[1]), ('global', rad[2])]
+    for nm, c in colls:
+        ok, obs = _on_day(c.datetimes, m, d)
+        if not ok or len(c.values) != 24:
+            return {'required': '%s series on %d/%d' % (nm, m, d), 'observed': obs,
+                    'sig': dict(sig, clause='series:' + nm)}
+    # date-times behind the radiation: the middle of every clock hour of the stated date (in standard
+    # time, i.e. one hour earlier under daylight saving), sub-hourly: every step of the day
+    sc = dd.sky_condition
+    for ts in timesteps:
+        shift = (30 if ts == 1 else 0) - (60 if desc['dst'] else 0)
+        base = datetime(2017, m, d)
+        try:
+            got = [(x.month, x.day, x.hour, x.minute) for x in sc._get_datetimes(ts)]
+        except Exception as e:
+            return {'required': 'sun date-times of %d/%d' % (m, d), 'observed': 'raises %s: %s' % (type(e).__name__, e),
+                    'sig': dict(sig, clause='sky_datetimes', raises=type(e).__name__)}
+        if len(got) != 24 * ts:
+            return {'required': 24 * ts, 'observed': len(got), 'sig': dict(sig, clause='sky_datetimes')}
+        for i, g in enumerate(got):
+            e0 = base + timedelta(minutes=shift + (60 * i) // ts if 60 % ts == 0 else shift + int(60.0 * i / ts))
+            # one minute of float truncation is tolerated (int() of 19.999999999999996)
+            cands = [e0, e0 - timedelta(minutes=1)] if ts not in (1, 2, 4) else [e0]
+            if desc['dst'] and (m, d) == (1, 1) and i * 60 < 60 * ts:
+                continue                # clock hour 0 of 1 Jan is 23:xx of the previous year: outside the model year
+            if g not in [(c.month, c.day, c.hour, c.minute) for c in cands]:
+                return {'required': 'sun date-time %d of %d/%d (ts %d) = %s' % (i, m, d, ts, e0),
+                        'observed': g, 'sig': dict(sig, clause='sky_datetimes')}
+    if rad is not None:
+        exp = _expected_radiation(desc, loc)
+        for nm, c, e in zip(('direct', 'diffuse', 'global'), rad, exp):
+            for h, (a, b) in enumerate(zip(c.values, e)):
+                if abs(a - b) > 1e-6 * max(1.0, abs(b)):
+                    return {'required': '%s radiation at hour %d of %d/%d = %r' % (nm, h, m, d, b),
+                            'observed': a, 'sig': dict(sig, clause='radiation')}
+        # the other consumer of the sun date-times: radiation_values(location, timestep) of the sky condition
+        for ts in timesteps:
+            if ts == 1 or ((m, d) == (1, 1) and ts not in (2, 4)):
+                continue            # 1 Jan: IEEE truncation of the minute (recorded quirk), not asserted
+            try:
+                got = sc.radiation_values(loc, ts)
+            except Exception as e:
+                return {'required': 'radiation_values(location, %d)' % ts,
+                        'observed': 'raises %s: %s' % (type(e).__name__, e),
+                        'sig': dict(sig, clause='radiation_subhourly', raises=type(e).__name__)}
+            exp = _expected_radiation(desc, loc, ts)
+            for nm, c, e in zip(('direct', 'diffuse', 'global'), got, exp):
+                if len(c) != 24 * ts:
+                    return {'required': 24 * ts, 'observed': len(c), 'sig': dict(sig, clause='radiation_subhourly')}
+                for h, (a, b) in enumerate(zip(c, e)):
+                    if abs(a - b) > 1e-6 * max(1.0, abs(b)):
+                        return {'required': '%s radiation at step %d (timestep %d) of %d/%d = %r' % (nm, h, ts, m, d, b),
+                                'observed': a, 'sig': dict(sig, clause='radiation_subhourly')}
+    return None
+
+
 def check_case(op, inp):
     """ladybug prints progress notes ('Updated end_day ...', 'Updating location ...'): keep stdout clean."""
     import contextlib
@@ -701,33 +888,7 @@ def _check_case(op, inp):
     from ladybug.location import Location
     if op == 'profile':
         desc = inp['desc']
-        dd = _build(desc)
-        sig = {'h_type': desc['h_type']}
-        db = list(dd.hourly_dry_bulb.values)
-        mx, rg = desc['db_max'], desc['db_range']
-        if len(db) != 24 or max(db) != mx:
-            return {'required': 'max of 24 hourly dry bulbs == %r' % mx, 'observed': (len(db), max(db)),
-                    'sig': dict(sig, clause='db_max')}
-        if min(db) != mx - rg or abs((max(db) - min(db)) - rg) > 1e-9 * max(1.0, abs(mx)):
-            return {'required': 'min == max - range = %r' % (mx - rg), 'observed': min(db),
-                    'sig': dict(sig, clause='db_range')}
-        dp = list(dd.hourly_dew_point.values)
-        for h, (a, b) in enumerate(zip(db, dp)):
-            if b > a:
-                return {'required': 'dew point <= dry bulb at hour %d' % h, 'observed': (a, b),
-                        'sig': dict(sig, clause='dew_le_db')}
-        rh = list(dd.hourly_relative_humidity.values)
-        for h, v in enumerate(rh):
-            if not (0 <= v <= 100 + 1e-9):
-                return {'required': '0 <= rh <= 100 at hour %d' % h, 'observed': v,
-                        'sig': dict(sig, clause='rh_range')}
-        for nm, coll, want in (('pressure', dd.hourly_barometric_pressure, desc['pressure']),
-                               ('wind_speed', dd.hourly_wind_speed, desc['ws']),
-                               ('wind_direction', dd.hourly_wind_direction, desc['wd'])):
-            if list(coll.values) != [want] * 24:
-                return {'required': '24 x %r' % want, 'observed': list(coll.values)[:3],
-                        'sig': dict(sig, clause=nm)}
-        return None
+        return _profile_clauses(_build(desc), desc)
     if op == 'dates':
         desc = inp['desc']
         m, d = desc['month'], desc['day']
@@ -735,60 +896,18 @@ def _check_case(op, inp):
         loc = _build_loc(inp['loc'])
         try:
             dd = _build(desc, loc)
-            ok, obs = _on_day(dd.hourly_datetimes, m, d)
         except Exception as e:
             return {'required': '24 date-times on %d/%d' % (m, d), 'observed': 'raises %s: %s' % (type(e).__name__, e),
                     'sig': dict(sig, clause='hourly_datetimes', raises=type(e).__name__)}
-        if not ok:
-            return {'required': 'hourly_datetimes on %d/%d' % (m, d), 'observed': obs,
-                    'sig': dict(sig, clause='hourly_datetimes')}
-        colls = [('dry_bulb', dd.hourly_dry_bulb), ('dew_point', dd.hourly_dew_point),
-                 ('relative_humidity', dd.hourly_relative_humidity), ('pressure', dd.hourly_barometric_pressure),
-                 ('wind_speed', dd.hourly_wind_speed), ('wind_direction', dd.hourly_wind_direction),
-                 ('sky_cover', dd.hourly_sky_cover), ('infrared', dd.hourly_horizontal_infrared)]
-        rad = None
-        if desc['sky'][0] != 'base':
-            try:
-                rad = dd.hourly_solar_radiation
-            except Exception as e:
-                return {'required': 'radiation of %d/%d' % (m, d), 'observed': 'raises %s: %s' % (type(e).__name__, e),
-                        'sig': dict(sig, clause='radiation', raises=type(e).__name__)}
-            colls += [('direct', rad[0]), ('diffuse', rad[1]), ('global', rad[2])]
-        for nm, c in colls:
-            ok, obs = _on_day(c.datetimes, m, d)
-            if not ok or len(c.values) != 24:
-                return {'required': '%s series on %d/%d' % (nm, m, d), 'observed': obs,
-                        'sig': dict(sig, clause='series:' + nm)}
-        # date-times behind the radiation: the middle of every clock hour of the stated date (in standard
-        # time, i.e. one hour earlier under daylight saving), sub-hourly: every step of the day
-        sc = dd.sky_condition
-        for ts in inp.get('timesteps', [1]):
-            shift = (30 if ts == 1 else 0) - (60 if desc['dst'] else 0)
-            base = datetime(2017, m, d)
-            try:
-                got = [(x.month, x.day, x.hour, x.minute) for x in sc._get_datetimes(ts)]
-            except Exception as e:
-                return {'required': 'sun date-times of %d/%d' % (m, d), 'observed': 'raises %s: %s' % (type(e).__name__, e),
-                        'sig': dict(sig, clause='sky_datetimes', raises=type(e).__name__)}
-            if len(got) != 24 * ts:
-                return {'required': 24 * ts, 'observed': len(got), 'sig': dict(sig, clause='sky_datetimes')}
-            for i, g in enumerate(got):
-                e0 = base + timedelta(minutes=shift + (60 * i) // ts if 60 % ts == 0 else shift + int(60.0 * i / ts))
-                # one minute of float truncation is tolerated (int() of 19.999999999999996)
-                cands = [e0, e0 - timedelta(minutes=1)] if ts not in (1, 2, 4) else [e0]
-                if desc['dst'] and (m, d) == (1, 1) and i * 60 < 60 * ts:
-                    continue                # clock hour 0 of 1 Jan is 23:xx of the previous year: outside the model year
-                if g not in [(c.month, c.day, c.hour, c.minute) for c in cands]:
-                    return {'required': 'sun date-time %d of %d/%d (ts %d) = %s' % (i, m, d, ts, e0),
-                            'observed': g, 'sig': dict(sig, clause='sky_datetimes')}
-        if rad is not None:
-            exp = _expected_radiation(desc, loc)
-            for nm, c, e in zip(('direct', 'diffuse', 'global'), rad, exp):
-                for h, (a, b) in enumerate(zip(c.values, e)):
-                    if abs(a - b) > 1e-6 * max(1.0, abs(b)):
-                        return {'required': '%s radiation at hour %d of %d/%d = %r' % (nm, h, m, d, b),
-                                'observed': a, 'sig': dict(sig, clause='radiation')}
-        return None
+        return _dates_clauses(dd, desc, loc, inp.get('timesteps', [1]))
+    if op == 'history':
+        return _check_history(inp)
+    if op == 'ddy_history':
+        return _check_ddy_history(inp)
+    if op == 'epw_history':
+        return _check_epw_history(inp)
+    if op == 'order':
+        return _check_order(inp)
     if op == 'idf_roundtrip':
         desc = inp['desc']
         sig = {'sky': _sky_sig(desc), 'h_type': desc['h_type'], 'wet_bulb_range': desc['wbr'] is not None}
@@ -816,8 +935,11 @@ def _check_case(op, inp):
         y = DDY.from_ddy_file(os.path.join(_assets(), 'ddy', inp['file']))
         return _ddy_rt(y, {'source': inp['file']})
     if op == 'header_days':
+        if inp['source'] == 'epw':
+            _EPW_CALLS.setdefault(inp['file'], []).append(['header'])
         return _check_header_days(inp)
     if op == 'approx_days':
+        _EPW_CALLS.setdefault(inp['file'], []).append(['approx', inp['percentile'], inp.get('monthly')])
         return _check_approx_days(inp)
     raise ValueError('unknown op ' + op)
 
@@ -852,16 +974,18 @@ def _ddy_rt(y, sig):
         shutil.rmtree(tmp, ignore_errors=True)
 
 
-def _expected_radiation(desc, loc):
-    """The stated sky model evaluated at the sun positions of the stated date (standard time)."""
+def _expected_radiation(desc, loc, ts=1):
+    """The stated sky model evaluated at the sun positions of the stated date (standard time): the middle of
+    every clock hour (timestep 1) or every step of the day (sub-hourly), times by the stdlib."""
     from ladybug.sunpath import Sunpath
     from ladybug.dt import DateTime
     from ladybug.skymodel import ashrae_clear_sky, ashrae_revised_clear_sky
     sp = Sunpath.from_location(loc)
     alts = []
-    base = datetime(2017, desc['month'], desc['day'], 0, 30)
-    for h in range(24):
-        t = base + timedelta(hours=h) - (timedelta(hours=1) if desc['dst'] else timedelta(0))
+    base = datetime(2017, desc['month'], desc['day'], 0, 30 if ts == 1 else 0)
+    for i in range(24 * ts):
+        off = (60 * i) // ts if 60 % ts == 0 else int(60.0 * i / ts)
+        t = base + timedelta(minutes=off) - (timedelta(hours=1) if desc['dst'] else timedelta(0))
         if t.year != 2017:
             t = t.replace(year=2017)            # 31 Dec 23:30 stands for the hour before 1 Jan 00:30
         alts.append(sp.calculate_sun_from_date_time(DateTime(t.month, t.day, t.hour, t.minute)).altitude)
@@ -875,6 +999,7 @@ def _expected_radiation(desc, loc):
 
 
 _EPW_CACHE = {}
+_EPW_CALLS = {}          # what has been asked of the shared EPW object of each file so far (in order)
 
 
 def _epw(fn):
@@ -959,7 +1084,7 @@ def _raw_header(src, fn):
     return hv, cv, pr, tb, td
 
 
-def _check_header_days(inp):
+def _check_header_days(inp, obj=None):
     """The four header-derived days of an EPW / STAT file against the values stated in the raw header:
     dry bulb, range, coincident wet bulb, wind speed and direction, month (21st), pressure (EPW: mean of the
     hourly station pressure; STAT: standard pressure at elevation; 101325 when absent), sky (clear sky with
@@ -975,7 +1100,8 @@ def _check_header_days(inp):
             f.readline()
             m = re.search(r'(20\d\d)', f.readline().split(',Heating')[0])
         sig['handbook'] = m.group(1) if m else 'none'
-    obj = _epw(fn) if src == 'epw' else STAT(os.path.join(_assets(), 'stat', fn))
+    if obj is None:
+        obj = _epw(fn) if src == 'epw' else STAT(os.path.join(_assets(), 'stat', fn))
     want_p = 101325 if press is None else press
     plan = [('h996', 'annual_heating_design_day_996', hv, 'DB996', 'DB996', 'WS_DB996', 'WD_DB996', None, 'WinterDesignDay'),
             ('h990', 'annual_heating_design_day_990', hv, 'DB990', 'DB990', 'WS_DB996', 'WD_DB996', None, 'WinterDesignDay'),
@@ -1049,10 +1175,10 @@ def _check_header_days(inp):
     return None
 
 
-def _check_approx_days(inp):
+def _check_approx_days(inp, epw=None):
     fn, pct = inp['file'], inp['percentile']
     sig = {'file': fn}
-    epw = _epw(fn)
+    epw = epw or _epw(fn)
     rows = _raw_epw(fn)
     n = len(rows)
     dbs = [r[1] for r in rows]
@@ -1126,6 +1252,1153 @@ def _check_approx_days(inp):
     return None
 
 
+# ---------------------------------------------------------------------------------------------
+# round 3: operation histories on ONE object, failure paths, process order
+#
+# Producers and their consumers (each consumer is exercised by a read below, by the oracle clauses or by a
+# correspondence op; a change made consistently in a producer and ONE consumer shows in the others):
+#   DryBulbCondition.hourly_values      -> hourly_dry_bulb, HumidityCondition.hourly_dew_point_values,
+#                                          hourly_relative_humidity, hourly_horizontal_infrared   [db dew rh ir dewvals]
+#   HumidityCondition.dew_point / hourly_dew_point_values
+#                                       -> hourly_dew_point, hourly_relative_humidity, hourly_horizontal_infrared,
+#                                          direct callers (dewvals, dew_for = other dry-bulb conditions)
+#   sky_condition.date                  -> analysis_period (header of all 11 hourly collections), hourly_datetimes,
+#                                          _get_datetimes, month of the clear-sky coefficients, to_idf month/day
+#   _SkyCondition._get_datetimes        -> ASHRAEClearSky.radiation_values, ASHRAETau.radiation_values (timestep 1 =
+#                                          hourly_solar_radiation, sub-hourly = rad_at)                [rad rad_at sdts]
+#   daylight_savings                    -> _get_datetimes, to_idf / from_idf flag
+#   DesignDay.to_idf                    -> DDY.to_file_string / write / EPW.to_ddy / STAT.to_ddy, from_idf round trip
+#   DesignDay.from_idf                  -> DDY.from_ddy_file
+#   Location.to_idf / from_idf          -> DDY.to_file_string / from_ddy_file
+#   EPW header dictionaries, mean pressure -> annual_*_design_day_*, best_available_design_days, to_ddy
+#   EPW hourly data                     -> approximate_design_day, monthly_cooling_design_days, best_available..., to_ddy
+#   STAT header dictionaries, tau, standard pressure -> annual_*_design_day_*, to_ddy
+
+
+ALT_LOCS = [{'city': 'Alt South', 'lat': -33.9, 'lon': 151.2, 'tz': 10.0, 'elev': 6},
+            {'city': 'Alt Equator', 'lat': 0, 'lon': 0, 'tz': 0, 'elev': 0},
+            {'city': 'Alt North', 'lat': 64.1, 'lon': -21.9, 'tz': -1.0, 'elev': 50}]
+ALL_READS = ['db', 'dew', 'rh', 'dewvals', 'ir', 'press', 'ws', 'wd', 'cover', 'hdts', 'ap', 'rad', 'idf',
+             'state', 'eq']
+
+
+def _isnum(v):
+    return isinstance(v, (int, float)) and not isinstance(v, bool)
+
+
+def _valid_date(a):
+    try:
+        datetime(2017, a[0], a[1])
+        return True
+    except (ValueError, TypeError):
+        return False
+
+
+def _sky_ok(sk):
+    """None when the constructor of the sky class accepts the parameters, else the error class."""
+    if sk[0] == 'clear':
+        if not _isnum(sk[1]) or not 0 <= sk[1] <= 1.2:
+            return 'assert'
+    elif sk[0] == 'tau':
+        if not _isnum(sk[1]) or not _isnum(sk[2]):
+            return 'assert'
+    return None
+
+
+def _loc_ok(a):
+    lat, lon, tz = a['lat'] or 0, a['lon'] or 0, a['tz']
+    return -90 <= lat <= 90 and -180 <= lon <= 180 and -12 <= tz <= 14
+
+
+def _spec_step(st, op):
+    """The public state the user has established after `op`, as the validation code of designday.py
+    prescribes it: a refused operation leaves everything as it was.  Returns (status, new state)."""
+    k, a = op[0], op[1]
+    d = dict(st['desc'])
+    sky = list(d['sky'])
+
+    def ok(**kw):
+        d.update(kw)
+        return 'ok', {'desc': d, 'loc': st['loc']}
+
+    def ref(e):
+        return 'refused:' + e, st
+
+    if k == 'read':
+        return 'ok', st
+    if k == 'name':
+        return ok(name=a) if isinstance(a, str) else ref('assert')
+    if k == 'day_type':
+        return ok(day_type=a) if a in DAY_TYPES else ref('assert')
+    if k in ('db_max', 'h_value', 'pressure', 'ws'):
+        return ok(**{k: a}) if _isnum(a) else ref('assert')
+    if k == 'db_range':
+        return ok(db_range=a) if _isnum(a) and a >= 0 else ref('assert')
+    if k == 'wd':
+        return ok(wd=a) if _isnum(a) and 0 <= a <= 360 else ref('assert')
+    if k in ('mod_type', 'mod_sched', 'sched', 'wbr'):
+        return ok(**{k: a})
+    if k == 'h_type':
+        return ok(h_type=a) if a in HUM_TYPES else ref('assert')
+    if k in ('rain', 'snow', 'dst'):
+        return ok(**{k: bool(a)})
+    if k == 'date':
+        if a is None:
+            return ref('assert')
+        return ok(month=a[0], day=a[1]) if _valid_date(a) else ref('value')
+    if k == 'clearness':
+        if sky[0] != 'clear':
+            return ref('attr')
+        return ok(sky=['clear', a]) if _sky_ok(['clear', a]) is None else ref('assert')
+    if k in ('tau_b', 'tau_d'):
+        if sky[0] != 'tau':
+            return ref('attr')
+        if not _isnum(a):
+            return ref('assert')
+        sky[1 if k == 'tau_b' else 2] = a
+        return ok(sky=sky)
+    if k == 'use_2017':
+        if sky[0] != 'tau':
+            return ref('attr')
+        sky[3] = bool(a)
+        return ok(sky=sky)
+    if k in ('beam', 'diff'):                  # generated for the plain _SkyCondition only
+        sky[1 if k == 'beam' else 2] = a
+        return ok(sky=sky)
+    if k == 'loc':
+        if a is None or not _loc_ok(a):
+            return ref('assert')
+        return 'ok', {'desc': d, 'loc': a}
+    if k == 'new_db':
+        if not _isnum(a[0]) or not _isnum(a[1]) or a[1] < 0:
+            return ref('assert')
+        return ok(db_max=a[0], db_range=a[1], mod_type=a[2], mod_sched=a[3])
+    if k == 'new_hum':
+        if a[0] not in HUM_TYPES or not _isnum(a[1]) or not _isnum(a[2]):
+            return ref('assert')
+        return ok(h_type=a[0], h_value=a[1], pressure=a[2], rain=bool(a[3]), snow=bool(a[4]), sched=a[5], wbr=a[6])
+    if k == 'new_wind':
+        if not _isnum(a[0]) or not _isnum(a[1]) or not 0 <= a[1] <= 360:
+            return ref('assert')
+        return ok(ws=a[0], wd=a[1])
+    if k == 'new_sky':
+        if a is None:
+            return ref('assert')
+        if not _valid_date([a['month'], a['day']]):
+            return ref('value')
+        e = _sky_ok(a['sky'])
+        if e:
+            return ref(e)
+        return ok(sky=list(a['sky']), month=a['month'], day=a['day'], dst=bool(a['dst']))
+    raise ValueError('unknown history op %r' % (k,))
+
+
+def _build_sky(a):
+    from ladybug.designday import ASHRAEClearSky, ASHRAETau, _SkyCondition
+    from ladybug.dt import Date
+    date = Date(a['month'], a['day'])
+    s = a['sky']
+    if s[0] == 'clear':
+        return ASHRAEClearSky(date, s[1], a['dst'])
+    if s[0] == 'tau':
+        return ASHRAETau(date, s[1], s[2], s[3], a['dst'])
+    return _SkyCondition(date, a['dst'], s[1], s[2])
+
+
+def _real_step(dd, op):
+    """Apply `op` to the real object through its public setters; a raised exception = refused."""
+    from ladybug.designday import DryBulbCondition, HumidityCondition, WindCondition
+    from ladybug.dt import Date
+    k, a = op[0], op[1]
+    try:
+        if k == 'read':
+            pass
+        elif k == 'name':
+            dd.name = a
+        elif k == 'day_type':
+            dd.day_type = a
+        elif k == 'db_max':
+            dd.dry_bulb_condition.dry_bulb_max = a
+        elif k == 'db_range':
+            dd.dry_bulb_condition.dry_bulb_range = a
+        elif k == 'mod_type':
+            dd.dry_bulb_condition.modifier_type = a
+        elif k == 'mod_sched':
+            dd.dry_bulb_condition.modifier_schedule = a
+        elif k == 'h_type':
+            dd.humidity_condition.humidity_type = a
+        elif k == 'h_value':
+            dd.humidity_condition.humidity_value = a
+        elif k == 'pressure':
+            dd.humidity_condition.barometric_pressure = a
+        elif k == 'rain':
+            dd.humidity_condition.rain = a
+        elif k == 'snow':
+            dd.humidity_condition.snow_on_ground = a
+        elif k == 'sched':
+            dd.humidity_condition.schedule = a
+        elif k == 'wbr':
+            dd.humidity_condition.wet_bulb_range = '' if a is None else a
+        elif k == 'ws':
+            dd.wind_condition.wind_speed = a
+        elif k == 'wd':
+            dd.wind_condition.wind_direction = a
+        elif k == 'date':
+            dd.sky_condition.date = None if a is None else Date(a[0], a[1])
+        elif k == 'dst':
+            dd.sky_condition.daylight_savings = a
+        elif k == 'clearness':
+            dd.sky_condition.clearness = a
+        elif k == 'tau_b':
+            dd.sky_condition.tau_b = a
+        elif k == 'tau_d':
+            dd.sky_condition.tau_d = a
+        elif k == 'use_2017':
+            dd.sky_condition.use_2017 = a
+        elif k == 'beam':
+            dd.sky_condition.beam_schedule = a
+        elif k == 'diff':
+            dd.sky_condition.diffuse_schedule = a
+        elif k == 'loc':
+            dd.location = None if a is None else _build_loc(a)
+        elif k == 'new_db':
+            dd.dry_bulb_condition = DryBulbCondition(a[0], a[1], a[2], a[3])
+        elif k == 'new_hum':
+            dd.humidity_condition = HumidityCondition(a[0], a[1], a[2], a[3], a[4], a[5], '' if a[6] is None else a[6])
+        elif k == 'new_wind':
+            dd.wind_condition = WindCondition(a[0], a[1])
+        elif k == 'new_sky':
+            dd.sky_condition = None if a is None else _build_sky(a)
+        else:
+            raise ValueError('unknown history op %r' % (k,))
+    except (AssertionError, ValueError, AttributeError, TypeError) as e:
+        if isinstance(e, ValueError) and str(e).startswith('unknown history op'):
+            raise
+        return 'refused:' + err_name(e)
+    return 'ok'
+
+
+def _coll(c):
+    return [list(c.values), [(t.month, t.day, t.hour, t.minute) for t in c.datetimes]]
+
+
+def _read0(dd, q, fresh):
+    from ladybug.designday import DesignDay, DryBulbCondition
+    if isinstance(q, list):
+        if q[0] == 'sdts':
+            return [t.moy for t in dd.sky_condition._get_datetimes(q[1])]
+        if q[0] == 'rad_at':
+            return [list(x) for x in dd.sky_condition.radiation_values(_build_loc(ALT_LOCS[q[2]]), q[1])]
+        if q[0] == 'dew_for':
+            return list(dd.humidity_condition.hourly_dew_point_values(DryBulbCondition(q[1], q[2])))
+        raise ValueError('unknown read %r' % (q,))
+    if q == 'db':
+        return _coll(dd.hourly_dry_bulb)
+    if q == 'dew':
+        return _coll(dd.hourly_dew_point)
+    if q == 'rh':
+        return _coll(dd.hourly_relative_humidity)
+    if q == 'dewvals':
+        return list(dd.humidity_condition.hourly_dew_point_values(dd.dry_bulb_condition))
+    if q == 'ir':
+        return _coll(dd.hourly_horizontal_infrared)
+    if q == 'press':
+        return _coll(dd.hourly_barometric_pressure)
+    if q == 'ws':
+        return _coll(dd.hourly_wind_speed)
+    if q == 'wd':
+        return _coll(dd.hourly_wind_direction)
+    if q == 'cover':
+        return _coll(dd.hourly_sky_cover)
+    if q == 'hdts':
+        return [t.moy for t in dd.hourly_datetimes]
+    if q == 'ap':
+        ap = dd.analysis_period
+        return [ap.st_month, ap.st_day, ap.st_hour, ap.end_month, ap.end_day, ap.end_hour, ap.timestep,
+                bool(ap.is_leap_year)]
+    if q == 'rad':
+        return [_coll(c) for c in dd.hourly_solar_radiation]
+    if q == 'idf':
+        return dd.to_idf()
+    if q == 'state':
+        return [_canon('ok ' + _show_dd(dd)), _canon('ok ' + _show_loc(dd.location))]
+    if q == 'eq':
+        # an equal design day built from scratch compares (and hashes) equal; so does the copy
+        return [dd == fresh, fresh == dd, hash(dd) == hash(fresh), dd.duplicate() == dd, not (dd != fresh)]
+    if q == 'idf_rt':
+        return DesignDay.from_idf(dd.to_idf(), dd.location) == dd
+    raise ValueError('unknown read %r' % (q,))
+
+
+def _read(dd, q, fresh):
+    try:
+        return _read0(dd, q, fresh)
+    except (AssertionError, ValueError, AttributeError, TypeError, IndexError, KeyError, ZeroDivisionError,
+            OverflowError) as e:
+        if isinstance(e, ValueError) and str(e).startswith('unknown read'):
+            raise
+        return 'raises:' + type(e).__name__
+
+
+def _short(v):
+    t = json.dumps(v, default=str)
+    return t if len(t) < 300 else t[:300] + '...'
+
+
+def _first_diff(a, b):
+    if isinstance(a, list) and isinstance(b, list) and len(a) == len(b):
+        for i, (x, y) in enumerate(zip(a, b)):
+            if x != y:
+                sub = _first_diff(x, y)
+                return '[%d]%s' % (i, sub)
+        return ''
+    return ': %s != %s' % (_short(a), _short(b))
+
+
+def _check_history(inp, digest=None):
+    """One design-day object, a list of operations (setters, replaced conditions, refused operations, reads in
+    any order, repeated).  After every read the observables of the object must be those of (i) a design day
+    built from scratch from the state the user has established and (ii) the statement itself (independent
+    recomputation).  A refused operation must be refused and leave every observable as before."""
+    st = {'desc': inp['desc'], 'loc': inp['loc']}
+    dd = _build(st['desc'], _build_loc(st['loc']))
+    last = 'build'
+    last_refused = False
+    for i, op in enumerate(inp['ops']):
+        sig = {'step': op[0], 'after': last, 'after_refused': last_refused}
+        if op[0] == 'read':
+            fresh = _build(st['desc'], _build_loc(st['loc']))
+            for q in op[1]:
+                got = _read(dd, q, fresh)
+                want = [True] * 5 if q == 'eq' else (True if q == 'idf_rt' else _read(fresh, q, fresh))
+                if digest is not None:
+                    digest.append(got)
+                if got != want:
+                    qn = q if isinstance(q, str) else q[0]
+                    return {'required': 'step %d: %s of the object == that of a design day built from the '
+                                        'established state %s' % (i, qn, _short(want)),
+                            'observed': 'differs at %s' % _first_diff(got, want),
+                            'sig': dict(sig, clause='history:' + qn)}
+            if len(op) > 2 and op[2]:
+                desc, loc = st['desc'], _build_loc(st['loc'])
+                res = _profile_clauses(dd, desc)
+                if res is None and not (desc['dst'] and (desc['month'], desc['day']) == (1, 1)
+                                        and abs(st['loc']['lat'] or 0) > 60):
+                    res = _dates_clauses(dd, desc, loc, op[3] if len(op) > 3 else [1])
+                if res:
+                    res['required'] = 'step %d (after %s): %s' % (i, last, res['required'])
+                    res['sig'] = dict(sig, **{k: v for k, v in res['sig'].items()})
+                    res['sig']['clause'] = 'history:' + str(res['sig'].get('clause'))
+                    return res
+            continue
+        got = _real_step(dd, op)
+        want, st = _spec_step(st, op)
+        if got != want:
+            return {'required': 'step %d: %s %s is %s' % (i, op[0], _short(op[1]), want), 'observed': got,
+                    'sig': dict(sig, clause='history:refusal', want=want, got=got)}
+        last = op[0]
+        last_refused = want != 'ok'
+    return None
+
+
+# --- generator of histories
+
+
+def _consistent_hv(rng, desc):
+    return _humidity_value(rng, desc['h_type'], float(desc['db_max']), float(desc['pressure']))
+
+
+def _rand_reads(rng, k=None):
+    qs = list(ALL_READS)
+    rng.shuffle(qs)
+    qs = qs[:k or rng.randrange(1, 6)]
+    if rng.random() < 0.35:
+        qs.insert(rng.randrange(len(qs) + 1), ['sdts', rng.choice(TIMESTEPS)])
+    if rng.random() < 0.3:
+        qs.insert(rng.randrange(len(qs) + 1), ['rad_at', rng.choice([1, 1, 2, 3, 4, 6]), rng.randrange(len(ALT_LOCS))])
+    if rng.random() < 0.25:
+        qs.insert(rng.randrange(len(qs) + 1), ['dew_for', round(rng.uniform(-20, 45), 1), rng.choice([0, 8.5, 20])])
+    if rng.random() < 0.3:
+        qs.append(rng.choice(qs))               # the same question asked twice
+    return qs
+
+
+def _hist_date(rng):
+    r = rng.random()
+    if r < 0.35:
+        return [rng.randrange(1, 13), 1]                    # first day of a month
+    if r < 0.5:
+        return rng.choice([[1, 1], [12, 31], [2, 28], [1, 2], [12, 30]])
+    m, d = _date(rng)
+    return [m, d]
+
+
+def _rand_skyd(rng, kind=None):
+    kind = kind or rng.choice(['clear', 'tau', 'tau', 'base'])
+    if kind == 'clear':
+        return ['clear', rng.choice([0, 1, 1.2, 0.0, 0.5, 0.87, 1.1])]
+    if kind == 'tau':
+        return ['tau', round(rng.uniform(0.2, 0.8), 3), round(rng.uniform(1.5, 2.8), 3), rng.random() < 0.5]
+    return ['base', rng.choice(['', 'BeamSch']), rng.choice(['', 'DiffSch'])]
+
+
+def _gen_history(rng, count=None, refused_first=False, n=None):
+    """A history on one design day: [kind, argument] setter steps (valid and refused) and ['read', questions,
+    full?] steps.  Everything is plain numbers / strings (JSON); nothing of ladybug builds it."""
+    desc = _rand_desc(rng)
+    if rng.random() < 0.8:
+        desc['wbr'] = None
+    loc = _rand_loc(rng)
+    st = {'desc': desc, 'loc': loc}
+    ops = []
+    cons = [True]
+
+    def emit(k, a):
+        op = [k, a]
+        status, st2 = _spec_step(st, op)
+        if st2 is not st:
+            st.update(st2)
+        ops.append(op)
+        if count:
+            count('hist_op:' + k + (':refused' if status != 'ok' else ''))
+        return status
+
+    def fix_humidity():
+        d = st['desc']
+        if d['h_type'] == 'Enthalpy' and d['db_max'] < 5:
+            emit('h_type', rng.choice(HUM_TYPES[:3]))
+        emit('h_value', _consistent_hv(rng, st['desc']))
+        cons[0] = True
+
+    def read(full=False, k=None):
+        qs = list(ALL_READS) if full else _rand_reads(rng, k)
+        if full:
+            rng.shuffle(qs)
+            d = st['desc']
+            if d['sky'][0] != 'base' and d['wbr'] is None:
+                qs.append('idf_rt')
+        ops.append(['read', qs, bool(full and cons[0]), [1, rng.choice(TIMESTEPS)]])
+
+    def refused():
+        d = st['desc']
+        kind = d['sky'][0]
+        choices = [('db_range', rng.choice([-6.0, -0.5, 'abc', None])), ('db_max', rng.choice(['abc', None])),
+                   ('h_type', rng.choice(['RelativeHumidity', 'wetbulb', ''])), ('h_value', rng.choice([None, '0.5'])),
+                   ('pressure', rng.choice(['abc', None])), ('ws', rng.choice([None, '3'])),
+                   ('wd', rng.choice([361, -0.5, 'abc', 720.0])), ('date', rng.choice([[2, 30], [13, 1], [4, 31], None])),
+                   ('name', rng.choice([None, 5])), ('day_type', rng.choice(['Saturday', 'summerdesignday', ''])),
+                   ('loc', rng.choice([None, dict(_rand_loc(rng), lat=95.0), dict(_rand_loc(rng), lon=-181.0)])),
+                   ('new_sky', rng.choice([None, {'sky': ['clear', 1.5], 'month': 7, 'day': 21, 'dst': True},
+                                           {'sky': ['tau', 'abc', 2.0, False], 'month': 1, 'day': 1, 'dst': False},
+                                           {'sky': ['clear', 1], 'month': 2, 'day': 30, 'dst': not d['dst']}])),
+                   ('new_db', rng.choice([[d['db_max'] + 5, -2.0, 'DefaultMultipliers', ''], ['abc', 5, 'DefaultMultipliers', '']])),
+                   ('new_hum', rng.choice([['Foo', 10.0, 101325, True, True, '', None],
+                                           [d['h_type'], 'abc', 90000, not d['rain'], not d['snow'], 'S', None]])),
+                   ('new_wind', rng.choice([[d['ws'] + 1, 400], [None, 10]]))]
+        if kind == 'clear':
+            choices += [('clearness', rng.choice([1.3, -0.1, 'abc', 1.2000001])), ('tau_b', 0.3), ('use_2017', True)] * 2
+        elif kind == 'tau':
+            choices += [('tau_b', rng.choice(['abc', None])), ('tau_d', rng.choice(['abc', None])), ('clearness', 0.5)] * 2
+        else:
+            choices += [('clearness', 0.5), ('tau_d', 2.0)]
+        k, a = rng.choice(choices)
+        emit(k, a)
+
+    def valid():
+        d = st['desc']
+        kind = d['sky'][0]
+        r = rng.random()
+        if r < 0.16:
+            emit('dst', not d['dst'])
+        elif r < 0.32:
+            emit('date', _hist_date(rng))
+        elif r < 0.40:
+            emit('db_range', rng.choice([0, 0.0, 25.0, round(rng.uniform(0, 25), 1), rng.randrange(0, 26)]))
+        elif r < 0.48:
+            emit('db_max', _num(rng, rng.uniform(-40, 55)))
+            cons[0] = False
+            if rng.random() < 0.5:
+                read()
+            fix_humidity()
+        elif r < 0.54:
+            emit('h_type', rng.choice(HUM_TYPES))
+            cons[0] = False
+            if rng.random() < 0.4:
+                read()
+            fix_humidity()
+        elif r < 0.56 and cons[0]:
+            # the same humidity numbers at a lower pressure are still a physically possible state
+            emit('pressure', round(float(d['pressure']) * rng.uniform(0.75, 0.99), rng.choice([0, 1])))
+        elif r < 0.58:
+            emit('pressure', _num(rng, rng.uniform(60000, 105000)))
+            cons[0] = False
+            if rng.random() < 0.6:
+                read()
+            fix_humidity()
+        elif r < 0.64:
+            if kind == 'clear':
+                emit('clearness', rng.choice([0, 0.0, 1, 1.2, round(rng.uniform(0, 1.2), 2)]))
+            elif kind == 'tau':
+                k = rng.choice(['tau_b', 'tau_d', 'use_2017'])
+                emit(k, (not d['sky'][3]) if k == 'use_2017' else round(rng.uniform(0.2, 2.8), 3))
+            else:
+                emit(rng.choice(['beam', 'diff']), rng.choice(['', 'Sch A', 'SchB']))
+        elif r < 0.72:
+            a = {'sky': _rand_skyd(rng), 'dst': rng.random() < 0.5}
+            a['month'], a['day'] = _hist_date(rng)
+            emit('new_sky', a)
+        elif r < 0.77:
+            emit('loc', _rand_loc(rng))
+        elif r < 0.81:
+            emit('new_db', [_num(rng, rng.uniform(-40, 55)), rng.choice([0, 12.5, 25.0]),
+                            rng.choice(['DefaultMultipliers', 'MultiplierSchedule']), rng.choice(['', 'RangeSch'])])
+            cons[0] = False
+            fix_humidity()
+        elif r < 0.85:
+            ht = rng.choice(HUM_TYPES)
+            if ht == 'Enthalpy' and d['db_max'] < 5:
+                ht = 'Dewpoint'
+            p = _num(rng, rng.uniform(60000, 105000))
+            emit('new_hum', [ht, _humidity_value(rng, ht, float(d['db_max']), float(p)), p, rng.random() < 0.5,
+                             rng.random() < 0.5, rng.choice(['', 'HumSch']), None])
+            cons[0] = True
+        elif r < 0.88:
+            emit('new_wind', [rng.choice([0, 0.0, 3.5, 12]), rng.choice([0, 360, 360.0, 45.5])])
+        else:
+            k = rng.choice(['name', 'day_type', 'mod_type', 'mod_sched', 'rain', 'snow', 'sched', 'wbr', 'ws', 'wd'])
+            v = {'name': _name(rng), 'day_type': rng.choice(DAY_TYPES),
+                 'mod_type': rng.choice(['DefaultMultipliers', 'MultiplierSchedule', 'DifferenceSchedule']),
+                 'mod_sched': rng.choice(['', 'RangeSch']), 'rain': not d['rain'], 'snow': not d['snow'],
+                 'sched': rng.choice(['', 'HumSch']), 'wbr': rng.choice([None, None, 4.5]),
+                 'ws': rng.choice([0, 0.0, 7.25]), 'wd': rng.choice([0, 360, 181.5])}[k]
+            emit(k, v)
+
+    if refused_first:
+        refused()
+        read(k=3)
+    else:
+        read()
+    for _ in range(n or rng.randrange(3, 8)):
+        r = rng.random()
+        if r < 0.27:
+            refused()
+            if rng.random() < 0.8:
+                read(full=rng.random() < 0.3)
+        elif r < 0.5:
+            read()
+        else:
+            valid()
+    read(full=True)
+    return {'desc': desc, 'loc': loc, 'ops': ops}       # `desc` / `loc` are the initial ones (never mutated)
+
+
+# --- the same histories on the Lean object state machine (driver op `hist`)
+
+
+def _arg(v):
+    if v is None:
+        return 'O'
+    if isinstance(v, bool):
+        return 'B' + _b(v)
+    if isinstance(v, str):
+        return 'S' + v.encode('utf-8').hex()
+    return 'N' + str(v).encode('utf-8').hex()
+
+
+def _sky_arg_tokens(a):
+    if a is None:
+        return ['O', 'O', 'B0', 'O', 'O', 'O', 'B0']
+    s = a['sky']
+    if s[0] == 'clear':
+        rest = ['clear', _arg(s[1]), 'O', 'B0']
+    elif s[0] == 'tau':
+        rest = ['tau', _arg(s[1]), _arg(s[2]), 'B' + _b(s[3])]
+    else:
+        rest = ['base', _arg(s[1]), _arg(s[2]), 'B0']
+    return [_arg(a['month']), _arg(a['day']), 'B' + _b(a['dst'])] + rest
+
+
+def _op_tokens(op):
+    k, a = op[0], op[1]
+    if k == 'read':
+        return ['read']
+    if k in ('rain', 'snow', 'dst', 'use_2017'):
+        return [k, 'B' + _b(bool(a))]
+    if k == 'date':
+        return [k] + (['O', 'O'] if a is None else [_arg(a[0]), _arg(a[1])])
+    if k == 'loc':
+        if a is None:
+            return [k, 'O', 'O', 'O', 'O', 'O']
+        t = _loc_tokens(a)
+        return [k, 'S' + t[0][1:]] + ['N' + x[1:] for x in t[1:]]
+    if k == 'new_db':
+        return [k] + [_arg(x) for x in a]
+    if k == 'new_hum':
+        return [k, _arg(a[0]), _arg(a[1]), _arg(a[2]), 'B' + _b(bool(a[3])), 'B' + _b(bool(a[4])), _arg(a[5]), _arg(a[6])]
+    if k == 'new_wind':
+        return [k, _arg(a[0]), _arg(a[1])]
+    if k == 'new_sky':
+        return [k] + _sky_arg_tokens(a)
+    return [k, _arg(a)]
+
+
+def _hist_line(h):
+    toks = ['hist'] + _dd_tokens(h['desc']) + _loc_tokens(h['loc'])
+    for op in h['ops']:
+        toks += [';'] + _op_tokens(op)
+    return ' '.join(toks)
+
+
+def _impl_hist(h):
+    """The real object driven through the same history, in the output format of the driver op `hist`:
+    after every step the status and the public state (also after reads: a read must not change it)."""
+    from ladybug.psychrometrics import rel_humid_from_db_dpt
+    dd = _build(h['desc'], _build_loc(h['loc']))
+    steps = []
+    hums = {}
+    for i, op in enumerate(h['ops']):
+        if op[0] == 'read':
+            fresh = _build(h['desc'], _build_loc(h['loc']))
+            for q in op[1]:
+                _read(dd, q, fresh)
+            status = 'ok'
+            # the humidity profile of the object at this point of its history (for the memo-free model)
+            try:
+                dp = list(dd.hourly_dew_point.values)
+                rh = list(dd.hourly_relative_humidity.values)
+                rh2 = [rel_humid_from_db_dpt(x, y) for x, y in zip(dd.dry_bulb_condition.hourly_values, dp)]
+                hums[i] = _floats_line(dp + rh) if rh == rh2 else 'rh series is not that of the dew point series'
+            except ZeroDivisionError:
+                pass
+            except (ValueError, OverflowError):
+                hums[i] = 'nonfinite'
+        else:
+            status = _real_step(dd, op)
+        steps.append('%s %s %s' % (status, _show_dd(dd), _show_loc(dd.location)))
+    return 'ok ' + ' | '.join(steps), dd, hums
+
+
+def _state_tokens(step):
+    """Input tokens (`_dd_tokens` format) of the design day the model reports after a step."""
+    t = step.split(' ')[1:]
+    head = [('x' + v[1:]) if v.startswith('n') else v for v in t[:19]]
+    kind = t[19]
+    if kind == 'clear':
+        sky = ['clear', 'x' + t[20][1:], 'x', '0']
+        n = 21
+    elif kind == 'tau':
+        sky = ['tau', 'x' + t[20][1:], 'x' + t[21][1:], t[22]]
+        n = 23
+    else:
+        sky = ['base', t[20], t[21], '0']
+        n = 22
+    return head + sky, t[n:]
+
+
+def _history_correspondence(ctx, rng):
+    from ladybug.designday import DryBulbCondition
+    hists = [_gen_history(rng, ctx.count, refused_first=(i % 5 == 0)) for i in range(ctx.n(160, 2000))]
+    lines = [_hist_line(h) for h in hists]
+    outs = ctx.driver().run(lines)
+    finals = []
+    hum_steps = []
+    for h, line, mo in zip(hists, lines, outs):
+        try:
+            io, dd, hums = _impl_hist(h)
+        except Exception as e:
+            io, dd, hums = 'err:' + err_name(e), None, {}
+        ctx.compared += 1
+        ctx.count('op:hist')
+        ctx.count('hist_len:%d' % min(len(h['ops']), 12))
+        ctx.case(('hist', line), nontrivial=io.startswith('ok'))
+        if _canon(mo) != _canon(io):
+            ms, is_ = _canon(mo).split(' | '), _canon(io).split(' | ')
+            k = next((i for i, (a, b) in enumerate(zip(ms, is_)) if a != b), min(len(ms), len(is_)))
+            ctx.disagree('hist', {'history': h, 'first_differing_step': k,
+                                  'op': h['ops'][k] if k < len(h['ops']) else None},
+                         ms[k][:400] if k < len(ms) else mo[:200], is_[k][:400] if k < len(is_) else io[:200])
+        elif dd is not None and mo.startswith('ok '):
+            msteps = mo[3:].split(' | ')
+            finals.append((h, msteps[-1], dd))
+            for i, line_i in hums.items():
+                hum_steps.append((h, i, msteps[i], line_i))
+    ctx.sample({'op': 'hist', 'request': lines[0][:400], 'model': outs[0][:200]})
+    # observables of the model, evaluated on the state the model's own step function reports, against the
+    # observables of the real object at the end of its history
+    reqs, impls = [], []
+    for h, step, dd in finals:
+        toks, _ = _state_tokens(step)
+        reqs.append('to_idf ' + ' '.join(toks))
+        impls.append(('hist_to_idf', h, lambda dd=dd: 'ok ' + _x(dd.to_idf())))
+        mx, rg = float(_unx(toks[2])), float(_unx(toks[3]))
+        reqs.append('db %s %s' % (_fbits(mx), _fbits(rg)))
+        impls.append(('hist_db', h, lambda dd=dd: _floats_line(dd.hourly_dry_bulb.values)))
+        reqs.append('hdts %s %s %s' % (toks[17], toks[15], toks[16]))
+        impls.append(('hist_hdts', h, lambda dd=dd: 'ok ' + ' '.join(str(x.moy) for x in dd.hourly_datetimes)))
+        ts = rng.choice(TIMESTEPS)
+        reqs.append('sdts %s %s %s %s %d' % (toks[17], toks[15], toks[16], toks[18], ts))
+        impls.append(('hist_sdts', h, lambda dd=dd, ts=ts: 'ok ' + ' '.join(
+            str(x.moy) for x in dd.sky_condition._get_datetimes(ts))))
+    # the humidity profile after every read step, against the memo-free model on the model's own state
+    hreqs = []
+    for h, i, step, _ in hum_steps:
+        toks, _rest = _state_tokens(step)
+        hreqs.append('hum %s %s' % (toks[6], ' '.join(_fbits(float(_unx(t))) for t in (toks[7], toks[8], toks[2], toks[3]))))
+    canon9 = _close_floats(9)
+    for (h, i, step, io), line, mo in zip(hum_steps, hreqs, ctx.driver().run(hreqs)):
+        ctx.compared += 1
+        ctx.count('op:hist_hum')
+        if canon9(mo) != canon9(io):
+            ctx.disagree('hist_hum', {'history': h, 'step': i, 'line': line}, mo[:300], io[:300])
+    mouts = ctx.driver().run(reqs)
+    for (op, h, fn), line, mo in zip(impls, reqs, mouts):
+        try:
+            io = fn()
+        except Exception as e:
+            io = 'err:' + err_name(e)
+        ctx.compared += 1
+        ctx.count('op:' + op)
+        if mo != io:
+            ctx.disagree(op, {'history': h, 'line': line[:300]}, mo[:300], io[:300])
+
+
+# --- histories on ONE DDY object
+
+
+def _writable(desc):
+    return desc['sky'][0] != 'base' and desc['wbr'] is None
+
+
+def _check_ddy_history(inp):
+    """One DDY object: location / design-day list / item setters (valid and refused), edits of a contained
+    day, reads of the file text and of the file round trip.  The file text must be the location object
+    followed by the IDF text of design days built from scratch from the established state."""
+    from ladybug.ddy import DDY
+    loc_d = inp['loc']
+    days = [dict(d) for d in inp['days']]
+    loc = _build_loc(loc_d)
+    y = DDY(loc, [_build(d, loc) for d in days])
+    for i, op in enumerate(inp['ops']):
+        k, a = op[0], op[1]
+        sig = {'step': k}
+        want = 'ok'
+        try:
+            if k == 'set_loc':
+                if a is None or not _loc_ok(a):
+                    want = 'refused:assert'
+                y.location = None if a is None else _build_loc(a)
+                loc_d = a
+            elif k == 'set_days':
+                if any(d is None for d in a):
+                    want = 'refused:assert'
+                y.design_days = [('not a day' if d is None else _build(d, _build_loc(loc_d))) for d in a]
+                days = [dict(d) for d in a]
+            elif k == 'setitem':
+                if a[1] is None:
+                    want = 'refused:assert'
+                elif not -len(days) <= a[0] < len(days):
+                    want = 'refused:index'
+                y[a[0]] = 'not a day' if a[1] is None else _build(a[1], _build_loc(loc_d))
+                days[a[0]] = dict(a[1])
+            elif k == 'edit':
+                st = {'desc': days[a[0]], 'loc': loc_d}
+                want, st2 = _spec_step(st, a[1])
+                got = _real_step(y[a[0]], a[1])
+                if got != 'ok':
+                    raise _Refused(got)
+                days[a[0]] = st2['desc']
+            elif k == 'read':
+                floc = _build_loc(loc_d)
+                exp = floc.to_idf() + '\n\n' + ''.join(_build(d, floc).to_idf() + '\n\n' for d in days)
+                got = y.to_file_string()
+                if got != exp:
+                    j = next((n for n, (p, q) in enumerate(zip(got, exp)) if p != q), min(len(got), len(exp)))
+                    return {'required': 'step %d: file text = location + design days of the established state; '
+                                        '...%r' % (i, exp[max(0, j - 40):j + 40]),
+                            'observed': '...%r' % got[max(0, j - 40):j + 40], 'sig': dict(sig, clause='ddy_history:text')}
+                if len(y) != len(days) or len(y.design_days) != len(days):
+                    return {'required': len(days), 'observed': len(y), 'sig': dict(sig, clause='ddy_history:len')}
+                if days and all(_writable(d) for d in days):
+                    res = _ddy_rt(y, dict(sig, clause0='ddy_history'))
+                    if res:
+                        return res
+            else:
+                raise ValueError('unknown ddy op %r' % (k,))
+            got = 'ok'
+        except _Refused as e:
+            got = e.args[0]
+        except (AssertionError, TypeError, IndexError, AttributeError) as e:
+            got = 'refused:' + err_name(e)
+        if got != want:
+            return {'required': 'step %d: %s is %s' % (i, k, want), 'observed': got,
+                    'sig': dict(sig, clause='ddy_history:refusal')}
+    return None
+
+
+class _Refused(Exception):
+    pass
+
+
+def _gen_ddy_history(rng):
+    loc = _rand_loc(rng)
+    days = []
+    for _ in range(rng.choice([1, 2, 3])):
+        d = _rand_desc(rng, sky=rng.choice(['clear', 'tau']))
+        d['wbr'] = None
+        days.append(d)
+    cur_loc, cur = loc, [dict(d) for d in days]
+    ops = []
+
+    def day():
+        d = _rand_desc(rng, sky=rng.choice(['clear', 'tau']))
+        d['wbr'] = None
+        return d
+
+    for _ in range(rng.randrange(3, 7)):
+        r = rng.random()
+        if r < 0.15:
+            a = _rand_loc(rng)
+            ops.append(['set_loc', a])
+            cur_loc = a
+        elif r < 0.25:
+            ops.append(['set_loc', rng.choice([None, dict(_rand_loc(rng), lat=-91.0)])])
+        elif r < 0.35:
+            a = [day() for _ in range(rng.choice([1, 2]))]
+            ops.append(['set_days', a])
+            cur = [dict(d) for d in a]
+        elif r < 0.45:
+            ops.append(['set_days', [day(), None]])
+        elif r < 0.55:
+            a = [rng.randrange(-len(cur), len(cur)), day()]
+            ops.append(['setitem', a])
+            cur[a[0]] = dict(a[1])
+        elif r < 0.65:
+            ops.append(['setitem', rng.choice([[0, None], [len(cur) + 1, day()]])])
+        elif r < 0.85:
+            j = rng.randrange(len(cur))
+            d = cur[j]
+            op = rng.choice([['dst', not d['dst']], ['date', _hist_date(rng)], ['db_range', rng.choice([0, 14.5])],
+                             ['db_range', -3.0], ['wd', 400], ['rain', not d['rain']], ['snow', not d['snow']],
+                             ['name', _name(rng)], ['day_type', 'Saturday'], ['date', [2, 30]]])
+            _, st2 = _spec_step({'desc': d, 'loc': cur_loc}, op)
+            cur[j] = st2['desc']
+            ops.append(['edit', [j, op]])
+        ops.append(['read', None])
+    ops.append(['read', None])
+    return {'loc': loc, 'days': days, 'ops': ops}
+
+
+# --- histories on ONE EPW object
+
+
+def _check_epw_history(inp):
+    """One EPW object (a new one, not the shared one), a list of reads in the given order - header days,
+    approximate days of several percentiles, monthly days, refused calls, the DDY written from it - each
+    compared with the values stated in the raw file (independent of the order)."""
+    from ladybug.epw import EPW
+    from ladybug.ddy import DDY
+    fn = inp['file']
+    epw = EPW(os.path.join(_assets(), 'epw', fn))
+    tmp = None
+    try:
+        for i, op in enumerate(inp['ops']):
+            k = op[0]
+            sig = {'file': fn, 'step': k}
+            res = None
+            if k == 'header':
+                res = _check_header_days({'source': 'epw', 'file': fn}, epw)
+                if res and any(core.matches(dict(res['sig'], op='header_days'), kf) for kf in core.load_known(PROP)):
+                    res = None          # the recorded header defect (reported by the op header_days itself)
+            elif k == 'approx':
+                res = _check_approx_days({'file': fn, 'percentile': op[1], 'monthly': op[2]}, epw)
+            elif k == 'bad':
+                try:
+                    got = epw.approximate_design_day(op[1], 0.4)
+                    res = {'required': 'approximate_design_day(%r) is refused' % op[1], 'observed': str(got),
+                           'sig': dict(sig, clause='epw_history:refusal')}
+                except ValueError:
+                    pass
+            elif k == 'to_ddy':
+                tmp = tmp or tempfile.mkdtemp(prefix='c16_')
+                path = os.path.join(tmp, 'out%d.ddy' % i)
+                epw.to_ddy(path, op[1])
+                back = DDY.from_ddy_file(path)
+                days = epw.best_available_design_days(op[1])
+                want = [_canon('ok ' + _show_dd(d)) for d in days]
+                got = [_canon('ok ' + _show_dd(d)) for d in back.design_days]
+                if want != got or _canon('ok ' + _show_loc(back.location)) != _canon('ok ' + _show_loc(epw.location)):
+                    res = {'required': 'to_ddy(%s) reads back as best_available_design_days: %s' % (op[1], want),
+                           'observed': got, 'sig': dict(sig, clause='epw_history:to_ddy')}
+            elif k == 'ip':
+                epw.convert_to_ip()
+            elif k == 'si':
+                epw.convert_to_si()
+            else:
+                raise ValueError('unknown epw op %r' % (k,))
+            if res:
+                res['required'] = 'step %d (%s): %s' % (i, k, res['required'])
+                res['sig'] = dict(res['sig'], step=k, units='IP' if epw.is_ip else 'SI', history='epw')
+                return res
+        return None
+    finally:
+        if tmp:
+            shutil.rmtree(tmp, ignore_errors=True)
+
+
+def _gen_epw_history(rng, fn):
+    ops = [['header'], ['approx', rng.choice([0.4, 1]), None], ['bad', rng.choice(['SpringDesignDay', '', 'Summer'])],
+           ['approx', rng.choice([2, 5]), 5], ['to_ddy', rng.choice([0.4, 1, 2])], ['header']]
+    rng.shuffle(ops)
+    return {'file': fn, 'ops': ops}
+
+
+# --- process-order independence: a slice of the oracle stream in fresh interpreters, in different orders
+
+
+def _digest(op, inp):
+    """A digest of every observable the case touches (floats by repr): the same case must give the same
+    digest whatever ran before it in the process."""
+    import hashlib
+    acc = []
+    if op in ('profile', 'dates', 'idf_roundtrip'):
+        dd = _build(inp['desc'], _build_loc(inp['loc']) if inp.get('loc') else None)
+        for q in ALL_READS[:-1] + [['sdts', 1], ['sdts', 4], ['rad_at', 2, 0]]:
+            acc.append(_read(dd, q, dd))
+    elif op == 'history':
+        _check_history(inp, acc)
+    elif op == 'header_days' and inp['source'] == 'stat':
+        from ladybug.stat import STAT
+        s = STAT(os.path.join(_assets(), 'stat', inp['file']))
+        for attr in ('annual_heating_design_day_996', 'annual_heating_design_day_990',
+                     'annual_cooling_design_day_004', 'annual_cooling_design_day_010'):
+            d = getattr(s, attr)
+            acc.append(None if d is None else _show_dd(d))
+    elif op == 'approx_days':
+        e = _epw(inp['file'])
+        for dt in ('WinterDesignDay', 'SummerDesignDay'):
+            try:
+                acc.append(_show_dd(e.approximate_design_day(dt, inp['percentile'])))
+            except Exception as ex:
+                acc.append('raises:' + type(ex).__name__)
+    elif op == 'ddy_file':
+        from ladybug.ddy import DDY
+        y = DDY.from_ddy_file(os.path.join(_assets(), 'ddy', inp['file']))
+        acc = [_show_dd(d) for d in y.design_days] + [y.to_file_string()]
+    return hashlib.sha1(json.dumps(acc, default=repr).encode('utf-8')).hexdigest()
+
+
+def _order_worker():
+    """Entry point of the fresh interpreter: stdin = {'cases': [[op, inp], ...], 'order': [...]}."""
+    import contextlib
+    import io
+    job = json.loads(sys.stdin.read())
+    out = {}
+    with contextlib.redirect_stdout(io.StringIO()):
+        for j in job['order']:
+            op, inp = job['cases'][j]
+            try:
+                res = _check_case(op, inp)
+            except Exception as e:
+                res = {'required': 'oracle evaluates', 'observed': 'exception %s: %s' % (type(e).__name__, e),
+                       'sig': {'exception': type(e).__name__}}
+            try:
+                dg = _digest(op, inp)
+            except Exception as e:
+                dg = 'exception %s: %s' % (type(e).__name__, e)
+            out[str(j)] = {'res': res, 'digest': dg}
+    sys.__stdout__.write(json.dumps(out, default=str))
+
+
+def _spawn_order(cases, order):
+    import subprocess
+    code = ('import sys; sys.path.insert(0, %r); sys.path.insert(0, %r); '
+            'from harness.props import c16; c16._order_worker()' % (core.ROOT, core.REPO))
+    env = dict(os.environ, LADYBUG_REPO=core.REPO)
+    return subprocess.Popen([sys.executable, '-c', code], stdin=subprocess.PIPE, stdout=subprocess.PIPE,
+                            stderr=subprocess.PIPE, env=env), json.dumps({'cases': cases, 'order': order})
+
+
+def _run_orders(cases, orders):
+    procs = []
+    for o in orders:
+        p, data = _spawn_order(cases, o)
+        p.stdin.write(data.encode('utf-8'))
+        p.stdin.close()
+        procs.append(p)
+    outs = []
+    for p in procs:
+        raw = p.stdout.read()
+        err = p.stderr.read()
+        p.wait()
+        if p.returncode != 0:
+            raise core.MachineryError('order worker failed: %s' % err.decode('utf-8', 'replace')[-1500:])
+        outs.append(json.loads(raw.decode('utf-8')))
+    return outs
+
+
+def _known_sig(res):
+    """Failures that are recorded findings are the same in every order: not an order effect."""
+    if not res:
+        return False
+    return any(core.matches(dict(res.get('sig') or {}, op=op), k) for k in core.load_known(PROP)
+               for op in ('idf_roundtrip', 'header_days', 'epw_history'))
+
+
+def _check_order(inp):
+    """Replay of a process-order failure: `order` and `ref_order` of the same cases in two fresh
+    interpreters; every case must pass in both and have the same observables in both."""
+    cases = inp['cases']
+    a, b = _run_orders(cases, [inp['order'], inp['ref_order']])
+    for name, run, order in (('order', a, inp['order']), ('ref_order', b, inp['ref_order'])):
+        for j in order:
+            r = run[str(j)]['res']
+            if r and not _known_sig(r):
+                pos = order.index(j)
+                return {'required': 'case %d (%s) holds when run at position %d of %s: %s' % (
+                    j, cases[j][0], pos, name, r.get('required')), 'observed': r.get('observed'),
+                    'sig': dict(r.get('sig') or {}, clause='order:' + str((r.get('sig') or {}).get('clause')),
+                                case_op=cases[j][0], position=pos)}
+    for j in inp['order']:
+        if a[str(j)]['digest'] != b[str(j)]['digest']:
+            return {'required': 'case %d (%s): the same observables in both process orders' % (j, cases[j][0]),
+                    'observed': 'digest %s (position %d of order) != %s (position %d of ref_order)' % (
+                        a[str(j)]['digest'][:12], inp['order'].index(j), b[str(j)]['digest'][:12],
+                        inp['ref_order'].index(j)),
+                    'sig': {'clause': 'order:digest', 'case_op': cases[j][0]}}
+    return None
+
+
+def _order_cases(rng):
+    """The slice: rare classes of every stratum + histories that begin with a refused call."""
+    cases = []
+    for ht in HUM_TYPES:                                   # saturating days
+        cases.append(['profile', {'desc': _saturating_desc(rng, ht)}])
+    cases.append(['profile', {'desc': _with(db_range=0)}])
+    for m in (3, 8, 11):                                   # first of a month x daylight saving x both models
+        cases.append(['dates', {'desc': _with(month=m, day=1, dst=True, sky=['clear', 0.9]), 'loc': FIXED_LOC,
+                                'timesteps': [1, 2]}])
+    cases.append(['dates', {'desc': _with(month=12, day=31, dst=False, sky=['tau', 0.45, 2.1, True]),
+                            'loc': ALT_LOCS[0], 'timesteps': [1, 6]}])
+    cases.append(['dates', {'desc': _with(month=1, day=1, dst=False), 'loc': FIXED_LOC, 'timesteps': [1, 4]}])
+    cases.append(['dates', {'desc': _with(month=7, day=21, dst=True, sky=['tau', 0.4, 2.3, False]),
+                            'loc': ALT_LOCS[2], 'timesteps': [1, 3]}])
+    for _ in range(3):
+        cases += _one_changed(rng)
+    for i in range(6):
+        cases.append(['history', _gen_history(rng, refused_first=(i % 2 == 0), n=4)])
+    cases.append(['idf_roundtrip', {'desc': _with(rain=True, snow=False, dst=True), 'loc': FIXED_LOC}])
+    cases.append(['idf_roundtrip', {'desc': _with(h_type='Enthalpy', h_value=65000.0, sky=['tau', 0.45, 2.1, True]),
+                                    'loc': FIXED_LOC}])
+    cases.append(['ddy_file', {'file': 'chicago.ddy'}])
+    stats = sorted(f for f in os.listdir(os.path.join(_assets(), 'stat')) if f.lower().endswith('.stat'))
+    cases.append(['header_days', {'source': 'stat', 'file': stats[rng.randrange(len(stats))]}])
+    return cases
+
+
+def _order_layer(ctx):
+    rng = ctx.rng
+    cases = _order_cases(rng)
+    n = len(cases)
+    base = list(range(n))
+    rare_first = [j for j in base if cases[j][0] == 'history'] + [j for j in base if cases[j][0] != 'history']
+    shuffled = list(base)
+    rng.shuffle(shuffled)
+    orders = [rare_first, shuffled, list(reversed(rare_first))]
+    if not ctx.quick or ctx.searching:
+        o4 = list(base)
+        rng.shuffle(o4)
+        orders.append(o4)
+    runs = _run_orders(cases, orders)
+    ctx.count('order_processes', len(orders))
+    ctx.count('order_cases', n)
+    for k, (order, run) in enumerate(zip(orders, runs)):
+        ref = orders[0] if k else orders[1]
+        refrun = runs[0] if k else runs[1]
+        bad = None
+        for j in order:
+            r = run[str(j)]['res']
+            if (r and not _known_sig(r)) or run[str(j)]['digest'] != refrun[str(j)]['digest']:
+                bad = j
+                break
+        ctx.case(('order', json.dumps(order)), nontrivial=True)
+        ctx.count('oracle:order')
+        if bad is not None:
+            inp = {'cases': cases, 'order': order, 'ref_order': ref}
+            res = _check_order(inp)
+            if res:
+                ctx.fail('order', inp, res['required'], res['observed'], res['sig'])
+                return
+    # the long-lived main process is one more order: same digests as in the fresh interpreters
+    import contextlib
+    import io
+    with contextlib.redirect_stdout(io.StringIO()):
+        for j in base:
+            if cases[j][0] in ('approx_days',):
+                continue
+            if _digest(cases[j][0], cases[j][1]) != runs[0][str(j)]['digest']:
+                inp = {'cases': cases, 'order': orders[0], 'ref_order': orders[1]}
+                ctx.fail('order_main', {'case': cases[j], 'note': 'digest in the check process differs from the '
+                                        'digest of the same case in a fresh interpreter'},
+                         'same observables in the check process and in a fresh interpreter', 'digests differ',
+                         {'clause': 'order:main_process', 'case_op': cases[j][0]})
+                return
+
+
+def _one_changed(rng):
+    """A design day and the same design day with exactly one input changed (pressure lowered / daylight
+    saving / date / location / sky parameter), as consecutive cases."""
+    d = _rand_desc(rng, sky=rng.choice(['clear', 'tau']))
+    d['wbr'] = None
+    loc = _rand_loc(rng)
+    if abs(loc['lat'] or 0) > 60:
+        loc['lat'] = 45.0
+    k = rng.choice(['pressure', 'pressure', 'dst', 'date', 'loc', 'sky'])
+    d2, loc2 = dict(d), loc
+    if k == 'pressure':
+        d2['pressure'] = round(float(d['pressure']) * rng.uniform(0.75, 0.99), 1)
+    elif k == 'dst':
+        d2['dst'] = not d['dst']
+    elif k == 'date':
+        d2['month'], d2['day'] = _hist_date(rng)
+    elif k == 'loc':
+        loc2 = dict(loc, lat=-loc['lat'] if loc['lat'] else 33.0)
+    elif d['sky'][0] == 'clear':
+        d2['sky'] = ['clear', rng.choice([c for c in (0.4, 0.9, 1.1) if c != d['sky'][1]])]
+    else:
+        d2['sky'] = ['tau', d['sky'][1], d['sky'][2], not d['sky'][3]]
+    out = []
+    for dd_, ll in ((d, loc), (d2, loc2)):
+        out.append(['profile', {'desc': dd_}])
+        out.append(['dates', {'desc': dd_, 'loc': ll, 'timesteps': [1, 2]}])
+    return out
+
+
+def _saturating_desc(rng, h_type):
+    """A humid day with a large daily range: the dew point at the peak lies above the night dry bulb."""
+    db = rng.choice([30.0, 33, 27.5, 38.0])
+    rg = rng.choice([14.0, 20, 25.0, 17.5])
+    p = rng.choice([101325, 95000.0])
+    dew = db - rng.uniform(0.5, min(rg - 1, 8))
+    pw = _sat_p(dew)
+    hr = 0.621945 * pw / (p - pw)
+    if h_type == 'Dewpoint':
+        v = dew
+    elif h_type == 'HumidityRatio':
+        v = hr
+    elif h_type == 'Enthalpy':
+        v = 1000.0 * (1.006 * db + hr * (2501.0 + 1.86 * db))
+    else:
+        lo, hi = dew, db
+        for _ in range(40):
+            mid = (lo + hi) / 2.0
+            if _sat_p(mid) - 0.000662 * p * (db - mid) < pw:
+                lo = mid
+            else:
+                hi = mid
+        v = (lo + hi) / 2.0
+    return _with(db_max=db, db_range=rg, pressure=p, h_type=h_type, h_value=v)
+
+
 FIXED_DESC = {'name': 'Fixed Day', 'day_type': 'SummerDesignDay', 'db_max': 33.3, 'db_range': 10.5,
               'mod_type': 'DefaultMultipliers', 'mod_sched': '', 'h_type': 'Wetbulb', 'h_value': 23.6,
               'pressure': 99063, 'rain': False, 'snow': False, 'sched': '', 'wbr': None, 'ws': 5.2, 'wd': 230,
@@ -1171,6 +2444,40 @@ def _oracle_cases(ctx):
     for fn in (epws if big else [epws[ctx.seed % len(epws)], epws[(ctx.seed + 2) % len(epws)]]):
         for p in pcts:
             yield 'approx_days', {'file': fn, 'percentile': p, 'monthly': 5 if p in (0.4, 2) else None}
+    # rare classes as strata of their own
+    for ht in HUM_TYPES:
+        for _ in range(3 if not big else 30):
+            yield 'profile', {'desc': _saturating_desc(rng, ht)}
+    for m in range(1, 13):                      # first / last day of every month x daylight saving x sky model
+        for day in (1, MONTH_LEN[m - 1]):
+            for sky in (['clear', rng.choice([1, 0.9, 1.2, 0.35])], ['tau', 0.45, 2.1, rng.random() < 0.5]):
+                loc = rng.choice([FIXED_LOC] + ALT_LOCS)
+                if (m, day) == (1, 1) and abs(loc['lat']) > 60:
+                    loc = FIXED_LOC
+                yield 'dates', {'desc': _with(month=m, day=day, dst=True, sky=sky), 'loc': loc,
+                                'timesteps': [1, rng.choice([2, 4, rng.choice(TIMESTEPS)])]}
+    for z in (dict(ws=0, wd=0), dict(ws=0.0, wd=360), dict(db_range=0.0, db_max=0), dict(sky=['clear', 0]),
+              dict(sky=['clear', 1.2]), dict(sky=['tau', 0, 0, False]), dict(h_type='Dewpoint', h_value=0),
+              dict(h_type='HumidityRatio', h_value=0.0005, db_max=0.0)):
+        yield 'profile', {'desc': _with(**z)}
+        yield 'idf_roundtrip', {'desc': _with(**z), 'loc': FIXED_LOC}
+        yield 'dates', {'desc': _with(**z), 'loc': ALT_LOCS[0], 'timesteps': [1, 60]}
+    # the same design day with ONE input changed, one after the other (a memo keyed on too few inputs)
+    for _ in range(12 if not big else 120):
+        for op, inp in _one_changed(rng):
+            yield op, inp
+    # histories on one object
+    for i in range(120 if not big else 1500):
+        yield 'history', _gen_history(rng, refused_first=(i % 4 == 0))
+    for _ in range(25 if not big else 300):
+        yield 'ddy_history', _gen_ddy_history(rng)
+    ehist = epws if big else [epws[(ctx.seed + 1) % len(epws)]]
+    for fn in ehist:
+        yield 'epw_history', _gen_epw_history(rng, fn)
+    # recorded findings: an EPW converted to IP units hands out design days with F / mph / inHg numbers
+    yield 'epw_history', {'file': 'chicago.epw', 'ops': [['ip'], ['approx', 0.4, None]]}
+    yield 'epw_history', {'file': 'chicago.epw', 'ops': [['ip'], ['header']]}
+    yield 'epw_history', {'file': 'chicago.epw', 'ops': [['ip'], ['si'], ['header'], ['approx', 0.4, 5]]}
     # generated stream
     for _ in range(600 if not big else 6000):
         yield 'profile', {'desc': _rand_desc(rng)}
@@ -1194,8 +2501,63 @@ def _oracle_cases(ctx):
         yield 'ddy_roundtrip', {'loc': _rand_loc(rng), 'days': days}
 
 
+_LIGHT_OPS = ('profile', 'dates', 'idf_roundtrip', 'history', 'ddy_roundtrip', 'ddy_history')
+
+
+def _run_stream(ctx, cases):
+    """`core.run_oracle_cases`, plus: a case that fails here but holds when it is the first thing a fresh
+    interpreter does fails because of what ran before it in this process; it is then reported together with
+    the cases before it as a replayable process order (`order` replay)."""
+    window = []
+    conversions = 0
+    known = core.load_known(PROP)
+    for op, inp in cases:
+        if len(ctx.failures) >= 200:
+            break
+        try:
+            res = check_case(op, inp)
+        except Exception as e:
+            res = {'required': 'oracle evaluates', 'observed': 'exception %s: %s' % (type(e).__name__, e),
+                   'sig': {'exception': type(e).__name__}}
+        ctx.count('oracle:' + op)
+        ctx.case((op, json.dumps(inp, sort_keys=True, default=str)))
+        if res and op in _LIGHT_OPS and conversions < 3 and \
+                not any(core.matches(dict(res.get('sig') or {}, op=op), k) for k in known):
+            conversions += 1
+            alone = _run_orders([[op, inp]], [[0]])[0]['0']['res']
+            if alone is None:
+                cs = window[-6:] + [[op, inp]]
+                n = len(cs)
+                o_inp = {'cases': cs, 'order': list(range(n)), 'ref_order': [n - 1] + list(range(n - 1))}
+                r2 = _check_order(o_inp)
+                if r2:
+                    ctx.count('order_dependent_failures')
+                    ctx.fail('order', o_inp, r2['required'], r2['observed'], r2['sig'])
+                    continue
+        if res and op in ('approx_days', 'header_days') and inp.get('source', 'epw') == 'epw' and conversions < 3 \
+                and not any(core.matches(dict(res.get('sig') or {}, op=op), k) for k in known):
+            # the shared EPW object has a history: replay it on a new object (self-contained replay)
+            conversions += 1
+            h_inp = {'file': inp['file'], 'ops': list(_EPW_CALLS.get(inp['file'], []))}
+            r2 = check_case('epw_history', h_inp)
+            if r2 and len(h_inp['ops']) > 1 and check_case('epw_history', {'file': inp['file'], 'ops': h_inp['ops'][-1:]}) is None:
+                ctx.count('order_dependent_failures')
+                ctx.fail('epw_history', h_inp, r2['required'], r2['observed'], r2['sig'])
+                continue
+        if res:
+            ctx.fail(op, inp, res.get('required'), res.get('observed'), res.get('sig'))
+        elif ctx.evaluations % 997 == 1:
+            ctx.sample({'oracle': op, 'input': inp}, limit=12)
+        if op in _LIGHT_OPS:
+            window.append([op, inp])
+            if len(window) > 8:
+                window.pop(0)
+
+
 def oracle(ctx):
-    run_oracle_cases(ctx, _oracle_cases(ctx), check_case)
+    _run_stream(ctx, _oracle_cases(ctx))
+    if len(ctx.failures) < 200:
+        _order_layer(ctx)
 
 
 LEVEL_TEXT = ('Machine-checked Lean 4 theorems over an executable model of designday.py / ddy.py / '
@@ -1208,7 +2570,12 @@ LEVEL_TEXT = ('Machine-checked Lean 4 theorems over an executable model of desig
               '(after the repair (doy - 1) * 1440; the day offset is regenerated from the source and the theorem '
               'breaks on the unrepaired tree); from_idf(to_idf(d)) = d at field level (abstract tokens obeying float(str(x)) == x etc.; value-level theorem C16_idf_roundtrip_value plus the slot-level layout theorem) for 4 humidity types x '
               '{ASHRAEClearSky, ASHRAETau, ASHRAETau2017} x rain/snow/daylight-saving flags with numbers as opaque '
-              'tokens, lifted to DDY files as lists; from_ashrae_dict_* carry the header values. The IDF field '
+              'tokens, lifted to DDY files as lists; from_ashrae_dict_* carry the header values. For ONE object '
+              'under any history of setter / replaced-condition / refused operations and reads (object state '
+              'machine): the final object is one the constructors accept and equals the design day built from '
+              'scratch from its public state (every observable agrees), a refused operation changes nothing, reads '
+              'are pure and their order and number cannot matter, and the IDF round trip holds after any history. '
+              'The IDF field '
               'layout used by the model is regenerated from to_idf/from_idf on every run. Radiation values, '
               'EPW percentile days and the character level of the text are checked on the real code only.')
 LEVEL_NOTE = ('Trusted: Lean kernel; axioms propext/Classical.choice/Quot.sound only; the extractor; the '
